@@ -684,10 +684,17 @@ class Py2Cpp(ITranspiler):
 			return self.render(node, f'assign/{node.classification}', vars=assign_vars)
 		elif isinstance(node.value, defs.FuncCall) and node.value.calls.tokens.startswith(Embed.static.__qualname__):
 			return self.render(node, f'assign/{node.classification}_declare', vars={**assign_vars, 'is_static': True})
-		elif isinstance(node.value, defs.FuncCall) and value.startswith(f'{var_type}('):
+		elif isinstance(node.value, defs.FuncCall) and self.is_initializer_call(value, var_type):
 			return self.render(node, f'assign/{node.classification}_declare', vars={**assign_vars, 'is_initializer': True})
 		else:
 			return self.render(node, f'assign/{node.classification}_declare', vars=assign_vars)
+
+	def is_initializer_call(self, value: str, var_type: str) -> bool:
+		"""Args: value: 右辺の文字列 var_type: 型名 Returns: True = 右辺全体が型のコンストラクターコール Note: 'A(1).dup()'の様なコールチェーンは対象外"""
+		if not value.startswith(f'{var_type}(') or not value.endswith(')'):
+			return False
+
+		return BlockParser.break_last_block(value, '()')[0] == var_type
 
 	def proc_move_assign_destruction(self, node: defs.MoveAssign, receivers: list[str], value: str) -> str:
 		"""Note: C++で分割代入できるのはtuple/pairのみ。Pythonではいずれもtupleのため、tuple以外は非対応"""
@@ -700,7 +707,7 @@ class Py2Cpp(ITranspiler):
 	def on_anno_assign(self, node: defs.AnnoAssign, receiver: str, var_type: str, value: str) -> str:
 		annotations = [self.transpile(annotation) for annotation in node.var_type.annotations]
 		assign_vars = {'receiver': receiver, 'var_type': var_type, 'value': value, 'annotations': annotations}
-		if isinstance(node.value, defs.FuncCall) and value.startswith(f'{var_type}('):
+		if isinstance(node.value, defs.FuncCall) and self.is_initializer_call(value, var_type):
 			return self.render(node, f'assign/{node.classification}', vars={**assign_vars, 'is_initializer': True})
 		else:
 			return self.render(node, f'assign/{node.classification}', vars=assign_vars)
